@@ -7,6 +7,8 @@ import (
 	"net"
 	"os"
 	"path/filepath"
+	"reflect"
+	"strconv"
 	"strings"
 	"sync"
 	"testing"
@@ -47,6 +49,89 @@ type effState struct {
 	GRPCListens   bool   `json:"grpc_listens"`
 	GRPCPlain     bool   `json:"grpc_plaintext"` // positive evidence: plaintext HTTP/2 SETTINGS frame received
 	ClientStrict  bool   `json:"client_strict"`  // http/client.StrictMode after the start (reported, not judged: the requests are)
+	// Loaded: every koanf-tagged scalar option of core.ServerConfig and of every engine's Config(), as the node loaded it (reflection)
+	Loaded map[string]string `json:"loaded,omitempty"`
+}
+
+// gateRef names one gating option of a case: key, kind and the YAML value as written.
+type gateRef struct {
+	Key   string `json:"key"`
+	Kind  string `json:"kind"`
+	Value string `json:"value"`
+}
+
+func walkValues(prefix string, v reflect.Value, out map[string]string) {
+	for v.Kind() == reflect.Ptr {
+		if v.IsNil() {
+			return
+		}
+		v = v.Elem()
+	}
+	if v.Kind() != reflect.Struct {
+		return
+	}
+	t := v.Type()
+	for i := 0; i < t.NumField(); i++ {
+		f := t.Field(i)
+		tag := f.Tag.Get("koanf")
+		if tag == "" || !f.IsExported() {
+			continue
+		}
+		key := tag
+		if prefix != "" {
+			key = prefix + "." + tag
+		}
+		fv := v.Field(i)
+		for fv.Kind() == reflect.Ptr && !fv.IsNil() {
+			fv = fv.Elem()
+		}
+		switch kindOf(fv.Type()) {
+		case "bool", "string", "int", "duration":
+			out[key] = fmt.Sprint(fv.Interface())
+		case "":
+			if fv.Kind() == reflect.Struct {
+				walkValues(key, fv, out)
+			}
+		}
+	}
+}
+
+// judgeReached: did the gating value that was written to the config file arrive in the configuration the node runs with? If not, the
+// gating case says nothing about that option (reported; a key written in a way the loader does not understand is no defect of this property).
+func judgeReached(r *ev.Run, nc nodeCase, res startResult) {
+	if res.Eff == nil || res.Eff.Loaded == nil {
+		return
+	}
+	for _, g := range nc.Gates {
+		got, ok := res.Eff.Loaded[g.Key]
+		if !ok {
+			continue
+		}
+		want := g.Value
+		switch g.Kind {
+		case "bool", "int":
+		case "duration":
+			d, err := time.ParseDuration(g.Value)
+			if err != nil {
+				continue
+			}
+			want = d.String()
+		case "string":
+			u, err := strconv.Unquote(g.Value)
+			if err != nil || strings.Contains(u, "{") {
+				continue
+			}
+			want = u
+		default:
+			continue
+		}
+		reached := got == want
+		r.Outcome(fmt.Sprintf("gating value reached the node's configuration: %v", reached))
+		if !reached {
+			r.AddExtra("gating_values_that_did_not_reach_the_configuration", 1)
+			r.Observation("an option written to the config file does not arrive in the configuration the node runs with: "+nc.Flag, fmt.Sprintf("written %s, loaded %q", g.Value, got))
+		}
+	}
 }
 
 // resetProcessGlobals puts every package-level variable that the node's engines assign during start-up (grep: only the HTTP engine's
@@ -58,8 +143,9 @@ func resetProcessGlobals() {
 }
 
 func effectiveState(sys *core.System, datadir, grpcAddr string, grpcOpen bool) *effState {
-	e := &effState{GRPCAddr: grpcAddr, GRPCListens: grpcOpen, ClientStrict: client.StrictMode}
+	e := &effState{GRPCAddr: grpcAddr, GRPCListens: grpcOpen, ClientStrict: client.StrictMode, Loaded: map[string]string{}}
 	if sys.Config != nil {
+		walkValues("", reflect.ValueOf(sys.Config), e.Loaded)
 		e.Strictmode, e.URL = sys.Config.Strictmode, sys.Config.URL
 		e.CertFile, e.CertKeyFile, e.Offload = sys.Config.TLS.CertFile, sys.Config.TLS.CertKeyFile, string(sys.Config.TLS.Offload)
 	}
@@ -68,6 +154,7 @@ func effectiveState(sys *core.System, datadir, grpcAddr string, grpcOpen bool) *
 		if !ok {
 			return
 		}
+		walkValues(strings.ToLower(inj.Name()), reflect.ValueOf(inj.Config()), e.Loaded)
 		switch cfg := inj.Config().(type) {
 		case *crypto.Config:
 			e.CryptoStorage = cfg.Storage
